@@ -12,6 +12,7 @@ import sys
 from .core import REPO
 
 _mods = {}
+_STDOUT_LOCK = __import__("threading").RLock()
 
 
 def cct(name: str = ""):
@@ -48,13 +49,14 @@ def stdout_as(encoding="utf-8"):
                 return ""
         yield _N()
         return
-    old = sys.stdout
-    s = Sink(encoding)
-    sys.stdout = s
-    try:
-        yield s
-    finally:
-        sys.stdout = old
+    with _STDOUT_LOCK:                # sys.stdout is process-global: serialise its replacement across threads
+        old = sys.stdout
+        s = Sink(encoding)
+        sys.stdout = s
+        try:
+            yield s
+        finally:
+            sys.stdout = old
 
 
 def classify(exc: BaseException | None) -> str:
